@@ -8,7 +8,7 @@ EXPLANATION = ('Three thread generations (two scenario threads and the main thre
                'after free (engine lifetime oracle).')
 ASSUMPTIONS = ['3 generations, <= 2 overlapping threads; the sequential-generation scenarios are deterministic (no solver variables; they are decided by '
                'constant folding in the engine) - the solver-decided part is the overlapping scenario; more generations / 3 overlapping threads are outside the bound']
-TIMEOUT = {'quick': 400, 'thorough': 2400}
+TIMEOUT = {'quick': 900, 'thorough': 2400}
 SRC = 'C17/generations.cpp'
 NAMES = {1: 'hp-static', 2: 'hp-dynamic', 3: 'he-static', 4: 'he-dynamic', 5: 'ebr', 6: 'nebr', 7: 'debra', 8: 'qsbr', 9: 'stamp-it', 12: 'geb-lazy'}
 
